@@ -87,22 +87,33 @@ Theorem C07_no_orphan_partial : forall (s : Server.state),
 Proof. exact ServerCancel.C07_srv_all_read_l. Qed.
 Print Assumptions C07_no_orphan_partial.
 
-(* ---- the full-strength caller statement is false of the code as it is ---- *)
-(* "every RecvMsg after the cancellation returns the Canceled status": a SendMsg that observes the cancelled
-   context tears the registration down before the stream loop has noticed the cancellation; the loop's Read then
-   sees two ready cases and may report "respChan closed" (status Unknown) instead. *)
-Definition c07_refute_ls : list label :=
+(* ---- the strict receive statement ---- *)
+(* A stream whose loop was still running when its context ended (the call had not completed: cancelled_running) ends,
+   in every quiescent state of every continuation, done with a terminal error x that is the Canceled /
+   DeadlineExceeded status - or the outcome of a terminal envelope that the loop took in the race with the
+   cancellation (EOF, the handler's status, reset), or the undecodable-metadata abort - and NEVER "respChan closed" or
+   the connection error; by C07_after_done every later RecvMsg returns RErr x and every SendMsg Some x.
+   (Before fix 72f38d7 of /repo this was false: D-07s, a SendMsg observing the cancellation tore the registration
+   down and the loop's next Read reported "respChan closed".) *)
+Theorem C07_recv_strict : forall ls1 ls2 s1 s2 c k2,
+  lrun init ls1 = Some s1 -> cancelled_running s1 c -> lrun s1 ls2 = Some s2 ->
+  quiescent s2 = true -> nth_error (calls s2) c = Some k2 -> k_pc k2 = POpen ->
+  exists x, s_rerr k2 = Some x /\ allowed x = true /\ done_with s2 c x.
+Proof. exact C07_recv_strict_l. Qed.
+Print Assumptions C07_recv_strict.
+
+(* the schedule of D-07s (cancel, a SendMsg that tears the registration down, then the loop's Read on the closed
+   handler) now ends with the Canceled status *)
+Definition c07_race_ls : list label :=
   [LExt (ANewStream false); LInt 2; LInt 3; LExt (ACancel 0); LExt (ASend 0 5); LInt 16; LInt 7; LInt 11; LInt 12;
    LExt (ARecv 0 false); LInt 13].
 
-Theorem C07_recv_refuted : exists ls s,
-  lrun init ls = Some s /\ In (LExt (ACancel 0)) ls /\ In (EvRecvRet 0 (RErr EClosed)) (log s).
-Proof.
-  exists c07_refute_ls. destruct (lrun init c07_refute_ls) as [s|] eqn:E; [|vm_compute in E; discriminate].
-  exists s. split; [reflexivity|]. split; [vm_compute; tauto|].
-  vm_compute in E. inversion E; subst. vm_compute. tauto.
-Qed.
-Print Assumptions C07_recv_refuted.
+Example C07_race_repaired :
+  match lrun init c07_race_ls with
+  | Some s => In (EvRecvRet 0 (RErr ECanceled)) (log s) /\ ~ In (EvRecvRet 0 (RErr EClosed)) (log s)
+  | None => False
+  end.
+Proof. vm_compute. split; [tauto|]. intros H. repeat (destruct H as [H|H]; [discriminate H|]). exact H. Qed.
 
 (* ---- the hypotheses are satisfiable by non-trivial runs ---- *)
 (* open, one body, two responses delivered and unread, cancel: at quiescence the stream is done with the Canceled
